@@ -35,6 +35,20 @@ def _worker(args):
     return out
 
 
+def _child(conn, args):
+    try:
+        conn.send(("ok", _worker(args)))
+    except BaseException as e:  # noqa: BLE001 - reported to the parent as a harness error
+        import traceback
+
+        try:
+            conn.send(("err", f"{type(e).__name__}: {e}\n{traceback.format_exc()[-1500:]}"))
+        except Exception:  # noqa: BLE001
+            pass
+    finally:
+        conn.close()
+
+
 def load_findings():
     from . import findings
 
@@ -168,41 +182,71 @@ def run_batch(prop: str, tier: str, seed: int, n_runs: int | None, budget_s: flo
     if prop == "C02":
         n_words = len(runner.systematic_words(runner.sys_len(tier)))
         sys_left = [(runner.SYSTEMATIC_BASE + i, min(CHUNK * 4, n_words - i)) for i in range(0, n_words, CHUNK * 4)]
-    with cf.ProcessPoolExecutor(max_workers=jobs, mp_context=ctx) as ex:
-        def submit():
-            nonlocal next_idx
-            while sys_left and len(pending) < jobs * 2:
-                start, n = sys_left.pop(0)
-                pending.add(ex.submit(_worker, (prop, seed, tier, start, n)))
-            while len(pending) < jobs * 2 and next_idx < total and (deadline is None or time.time() < deadline):
-                n = min(2 if prop in IO_PROPS else CHUNK, total - next_idx)
-                pending.add(ex.submit(_worker, (prop, seed, tier, next_idx, n)))
-                next_idx += n
-        submit()
-        broken = False
-        hard = (t0 + budget_s * 2 + 300) if budget_s else t0 + 3600
-        while pending:
-            done, _ = cf.wait(pending, timeout=30, return_when=cf.FIRST_COMPLETED)
-            if not done and time.time() > hard:
+    # one forked child per chunk (boot state is shared copy-on-write, so a fork costs
+    # milliseconds): a child that dies - a segfault or bus error provoked by the code under
+    # test - loses its own chunk only; it is reported as a harness error with the run
+    # indices it held, and the batch goes on
+    from multiprocessing.connection import wait as mp_wait
+
+    running: dict = {}  # sentinel -> (process, parent connection, args)
+
+    def launch(args):
+        rd, wr = ctx.Pipe(duplex=False)
+        p = ctx.Process(target=_child, args=(wr, args), daemon=True)
+        p.start()
+        wr.close()
+        running[p.sentinel] = (p, rd, args)
+
+    def submit():
+        nonlocal next_idx
+        while sys_left and len(running) < jobs:
+            start, n = sys_left.pop(0)
+            launch((prop, seed, tier, start, n))
+        while len(running) < jobs and next_idx < total and (deadline is None or time.time() < deadline):
+            n = min(2 if prop in IO_PROPS else CHUNK, total - next_idx)
+            launch((prop, seed, tier, next_idx, n))
+            next_idx += n
+
+    submit()
+    hard = (t0 + budget_s * 2 + 300) if budget_s else t0 + 3600
+    deaths = 0
+    try:
+        while running:
+            ready = mp_wait([v[1] for v in running.values()] + list(running), timeout=30)
+            if not ready and time.time() > hard:
                 raise RuntimeError("batch exceeded its hard wall-clock limit")
-            for f in done:
-                pending.discard(f)
-                try:
-                    results = f.result()
-                except Exception as e:  # noqa: BLE001 - a dead worker is a harness error, never exit 0
-                    agg.harness.append((-1, f"worker failed: {type(e).__name__}: {e}"))
-                    broken = True
+            for sent in list(running):
+                p, rd, args = running[sent]
+                msg = None
+                if rd.poll():
+                    try:
+                        msg = rd.recv()
+                    except (EOFError, OSError):
+                        msg = None
+                elif p.is_alive():
                     continue
-                for r in results:
-                    agg.add(r)
-            if broken:
-                for f in pending:
-                    f.cancel()
+                p.join(timeout=10)
+                rd.close()
+                del running[sent]
+                if msg is None:
+                    deaths += 1
+                    agg.harness.append((args[3], f"worker died (exit code {p.exitcode}) while holding runs {args[3]}..{args[3] + args[4] - 1}"))
+                elif msg[0] == "err":
+                    agg.harness.append((args[3], f"worker failed: {msg[1]}"))
+                else:
+                    for r in msg[1]:
+                        agg.add(r)
+            if deaths > 20:
                 break
             sigs = {}
             for _, v in agg.viol:
                 sigs[signature(v)] = sigs.get(signature(v), 0) + 1
             if len(sigs) < 6 and (not sigs or max(sigs.values()) < 200):
                 submit()
+    finally:
+        for p, rd, _ in running.values():
+            p.kill()
+            p.join(timeout=5)
+            rd.close()
     agg.wall = time.time() - t0
     return agg
